@@ -392,7 +392,23 @@ class Parser:
 
             self.raise_raw_syntax_error("invalid syntax", last_token.start, last_token.end)
 
+        if isinstance(res, ast.AST) and any(not t.string.isascii() for t in self._tokenizer._tokens if t.type == Token.NAME):
+            self._normalize_identifiers(res)
         return res
+
+    _IDENTIFIER_FIELDS: ClassVar[frozenset[str]] = frozenset({"id", "attr", "arg", "name", "asname", "module", "rest", "names", "kwd_attrs"})
+
+    def _normalize_identifiers(self, tree: ast.AST) -> None:
+        """Identifiers are compared in NFKC normal form (PEP 3131); CPython stores them that way in the tree."""
+        import unicodedata
+
+        for node in ast.walk(tree):
+            for field in self._IDENTIFIER_FIELDS.intersection(node._fields):
+                value = getattr(node, field)
+                if isinstance(value, str) and not value.isascii():
+                    setattr(node, field, unicodedata.normalize("NFKC", value))
+                elif isinstance(value, list) and any(isinstance(v, str) and not v.isascii() for v in value):
+                    setattr(node, field, [unicodedata.normalize("NFKC", v) if isinstance(v, str) else v for v in value])
 
     def check_version(self, min_version: tuple[int, ...], error_msg: str, node: T) -> T:
         """Check that the python version is high enough for a rule to apply."""
